@@ -14,9 +14,14 @@ ASSUMPTIONS = [
     'theorems are over exact rationals; the replay compares IEEE doubles bit for bit (stamps, vtime, last_time, aux_vc, vc, clock)',
     'family `longbusy` (about 4% of the cases): one busy period of few, very large packets in which WFQ\'s virtual time passes 1e6 and more, with a light class that is idle '
     'while its finish stamp is ahead of V and returns before V has caught up; replayed through the model like every other case (magnitudes up to 1e8 s / 1e11 bytes)',
-    'WFQ accumulates weight_sum in the iteration order of a Python set; the model adds in ascending class order. The workloads use integer or dyadic weights '
-    '(every partial sum exact, so the order cannot matter) and arbitrary floats only with at most two classes (a + b = b + a); '
-    'with three or more non-dyadic weights the last bit of vtime could depend on the hash-table order, which is outside the model',
+    # b-fixwfq BEGIN
+    'WFQ accumulates weight_sum over the weight table in its key order (`for i in self.weights: if i in self.active_set`, repaired in /repo: it used to follow the '
+    'iteration order of the set); the model adds in ascending class order. The workloads use integer or dyadic weights (every partial sum exact, so the order cannot '
+    'matter), arbitrary floats with at most two classes (a + b = b + a), and arbitrary floats (0.1, 0.3, 0.6, 0.7, 1.1, 2.5, 1/3) with three or four classes when the '
+    'table lists the classes in ascending order (style `anyasc`, about 12% of the WFQ cases with three or more classes: table order = the model\'s order); a shuffled '
+    'table with three or more non-dyadic weights is outside the model\'s Float replay (the bridge theorem covers it over exact rationals). The Python stamp oracle '
+    'adds in table order',
+    # b-fixwfq END
     'which of several items with an equal (stamp, arrival instant) key heapq returns is not modelled: the hand-off action carries the packet the implementation '
     'chose and the model verifies that its key is minimal (DESIGN section 3: such packets may leave in either order)',
     'WFQ: an arrival finds the scheduler empty when no packet is waiting or in transmission (total_packets == 0), also in the instant in which the last '
@@ -29,8 +34,8 @@ ASSUMPTIONS = [
 TRUSTED_EXTRA = ['the kernel guarantees (G1-G3) that make `tick` admissible only at quiescence are theorems of model K (C01), assumed for the device LTS',
                  'heapq returns an item that is minimal under PriorityItem.__lt__ (checked on every hand-off by the model, which rejects a non-minimal choice)',
                  'py2lean/elem.py + elements.py (typed AST-subset translator; hand-written per-class field schema of WFQ / VC objects, declared effects '
-                 '`add_packet_to_queue`, `active_set.add`, `store.put(PriorityItem((stamp, now), packet))`, the active-set loop as a fold over the '
-                 'list of active weights); the bridge theorems C14.wfq_put_/wfq_vtime_/vc_put_generated_eq_model tie its output to the model']
+                 '`add_packet_to_queue`, `active_set.add`, `store.put(PriorityItem((stamp, now), packet))`, the weight-sum loop in table order `for i in self.weights: if i in self.active_set` as a fold over the '
+                 'weight table paired with the membership answers)  # b-fixwfq; the bridge theorems C14.wfq_put_/wfq_vtime_/vc_put_generated_eq_model tie its output to the model']
 BRIDGES = ['C14.wfq_put_generated_eq_model', 'C14.wfq_vtime_generated_eq_model', 'C14.vc_put_generated_eq_model']
 HAND_MODELLED = ['WFQ.run / VC.run (generator control flow and WFQ\'s bookkeeping after a transmission: class_count, active_set.remove, reset)',
                  'Scheduler.send_packet (control flow, per-flow counters; its transmission delay is translated for C12: Generated/SchedTx.lean)', 'Scheduler.add_packet_to_queue', 'WFQ.__init__ / VC.__init__',
@@ -731,6 +736,8 @@ def run(ctx, prop='C14', n_quick=3000, n_thorough=50000):
             hist[l.split(' ')[0]] += 1
         hist['kind:' + c['kind']] += 1
         hist['family:' + c.get('family', '?')] += 1
+        if c.get('style') == 'anyasc':          # b-fixwfq
+            hist['WFQ cases with three or more classes and weights that are neither whole nor dyadic (table in ascending class order)'] += 1
         hist['map:' + ('default' if c.get('f2c_default') else 'identity' if all(f == k for f, k in c['f2c']) else 'many-to-one')] += 1
         d = first_diff(r.obs, model)
         if d:
